@@ -327,7 +327,7 @@ Proof. induction pre as [|x t IH]; [reflexivity | exact IH]. Qed.
 
 (* the end of learn_from_conflict: the clause is in the database, the trail is cut back to the target
    level and the literal the clause asserts is assigned there *)
-Lemma learn_finish (st1 : sst) c ps2 units2 act2 ok target last st4 :
+Lemma learn_finish (st1 : sst) c ps2 units2 act2 ok born target last st4 :
   ps_trail ps2 = trail st1 ->
   sortedL (trail st1) -> justL (s_db st1) (trail st1) -> tnd (trail st1) -> Rooted (trail st1) ->
   AStruct (s_db st1) (s_asserts st1) -> AStruct (s_db st1 ++ [c]) units2 -> why_older (s_db st1 ++ [c]) ->
@@ -337,12 +337,12 @@ Lemma learn_finish (st1 : sst) c ps2 units2 act2 ok target last st4 :
      l = last \/ (fst l <> fst last /\ pval (tl_lits (trail st1)) (fst l) = Some (negb (snd l)) /\
                   exists lv, level_of (trail st1) (fst l) = Some lv /\ (lv <= target)%N)) ->
   s_assign (s_undo_until (mkS (s_enc st1) (s_db st1 ++ [c]) ps2 (s_asserts st1) units2 act2
-                              (s_start st1) (s_log st1) (s_order st1) ok) target)
+                              (s_start st1) (s_log st1) (s_order st1) ok born) target)
            last target (N.of_nat (length (s_db st1))) = Some st4 ->
   LInv st4 /\ Rooted (trail st4) /\ top_lv st4 = target.
 Proof.
   intros Etr Hs Hj Hn Hr Ha Hu Hw Hok H1 Hnone Hl H.
-  set (st2 := mkS (s_enc st1) (s_db st1 ++ [c]) ps2 (s_asserts st1) units2 act2 (s_start st1) (s_log st1) (s_order st1) ok) in *.
+  set (st2 := mkS (s_enc st1) (s_db st1 ++ [c]) ps2 (s_asserts st1) units2 act2 (s_start st1) (s_log st1) (s_order st1) ok born) in *.
   assert (HL2 : LInv st2).
   { constructor; cbn [st2 s_ps s_db s_asserts s_units s_ok]; try rewrite Etr; auto.
     - apply justL_mono. exact Hj.
@@ -433,7 +433,7 @@ Proof.
     | context [s_assign ?X ?L ?T ?I] => destruct (s_assign X L T I) as [st4|] eqn:Ea; [|discriminate]
     end.
     inversion H. subst st' lv.
-    eapply (learn_finish st1 _ _ _ _ _ _ last st4); [| | | | | | | | | | | | exact Ea]; try assumption.
+    eapply (learn_finish st1 _ _ _ _ _ _ _ last st4); [| | | | | | | | | | | | exact Ea]; try assumption.
     + reflexivity.
     + apply Hr1. exact Hne.
     + rewrite D1, D2. apply (li_asserts _ HL).
@@ -452,7 +452,7 @@ Proof.
     | context [s_assign ?X ?L ?T ?I] => destruct (s_assign X L T I) as [st4|] eqn:Ea; [|discriminate]
     end.
     inversion H. subst st' lv.
-    eapply (learn_finish st1 _ _ _ _ _ _ last st4); [| | | | | | | | | | | | exact Ea]; try assumption.
+    eapply (learn_finish st1 _ _ _ _ _ _ _ last st4); [| | | | | | | | | | | | exact Ea]; try assumption.
     + reflexivity.
     + apply Hr1. exact Hne.
     + rewrite D1, D2. apply (li_asserts _ HL).
@@ -700,7 +700,7 @@ Theorem solve_ok fuel efuel a0 order o st :
   solve U P a_ge a_conflict fuel efuel a0 order = (o, st) -> s_ok st = true.
 Proof.
   unfold solve.
-  set (st0 := mkS (estate0 cache0) [mkCl KRoot [(VRoot, true)]] ps0 [] [] a0 0 [] order true).
+  set (st0 := mkS (estate0 cache0) [mkCl KRoot [(VRoot, true)]] ps0 [] [] a0 0 [] order true []).
   assert (H0 : SInv U P A st0).
   { constructor; simpl; [apply einv0 | reflexivity | apply winv0 | reflexivity]. }
   assert (HL0 : LInv st0).
